@@ -79,7 +79,7 @@ func callsDeep(fn *ssa.Function, ids ...string) []ssa.Instruction {
 func checkC15(c *Ctx) Meta {
 	c.Rule("C15-REJECT", "requests below the minimum plot size are rejected before anything else; every creation of a new space is dominated by the allow-generate flag and by the success edge of a free-disk check whose argument derives from the shortfall (target - current)", 9)
 	c.Rule("C15-PLACE", "per-directory configuration creates and selects spaces only in the requested directory: the same directory value feeds the fill filter, the disk check and the creation, and reaches the file path of the new plot", 5)
-	c.Rule("C15-REUSE", "indexed spaces are consulted before creation: the fill step precedes the generate step, which runs only when fill reports unfinished", 4)
+	c.Rule("C15-REUSE", "indexed spaces are consulted before creation: the fill step precedes the generate step, which runs only when fill reports unfinished; removed spaces stay indexed; the count-based finished flag is a conjunction", 6)
 	c.Rule("C15-BOUND", "a space is selected or created only behind the comparison that keeps the running total within the target (never exceeds); the smallest usable bit length equals the chain library's minimum (shortfall bound)", 5)
 
 	pkgS := "poc/engine/spacekeeper/capacity"
@@ -345,6 +345,68 @@ func checkC15(c *Ctx) Meta {
 			} else {
 				c.Bad("C15-REUSE", key, c.Pos(f.Pos()), "a space can be created although one with the same id is indexed")
 			}
+		}
+	}
+
+	// removed spaces stay indexed (so that a later configuration reuses them instead of creating new ones)
+	if rm := c.MustFn("C15-REUSE", pkgS, "(*SpaceKeeper).RemoveWS"); rm != nil {
+		seen := c.Reachable([]*ssa.Function{rm}, func(from *ssa.Function, e callEdge) bool { return pkgOf(e.Callee) == pkgCapacity })
+		bad := ""
+		for g := range seen {
+			for _, d := range callsIn(g, "(*"+pkgCapacity+".WorkSpaceMap).Delete") {
+				bad = FuncName(g) + " at " + c.Pos(d.Pos())
+			}
+		}
+		if bad != "" {
+			c.Bad("C15-REUSE", "RemoveWS:space-stays-indexed", c.Pos(rm.Pos()), "RemoveWS drops the space from the index ("+bad+") although its files stay on disk: the next configuration creates a new space instead of reusing it and the leftover file reappears after a restart")
+		} else {
+			c.OK("C15-REUSE", "RemoveWS:space-stays-indexed", c.Pos(rm.Pos()), fmt.Sprintf("%d functions reachable from RemoveWS, none deletes from workSpaceIndex", len(seen)))
+		}
+	}
+	// count-based fill: the finished flag is a conjunction over all requested bit lengths
+	if f := c.MustFn("C15-REUSE", pkgS, "fillSpaceListByBitLength"); f != nil {
+		key := "fillSpaceListByBitLength:finished-is-conjunction"
+		ok := false
+		why := "the finished result is not loop-carried"
+		for _, ret := range returnsOf(f) {
+			fin := ret.Results[2]
+			// header phi of the flag
+			var hdr *ssa.Phi
+			valueOrigins(f, fin, func(root ssa.Value) {})
+			for v := range backSlice(fin).vals {
+				if p, isPhi := v.(*ssa.Phi); isPhi && blockReentered(f, p) && p.Type() == fin.Type() {
+					// a phi with an edge from outside the loop (initial value) and from the latch
+					if hdr == nil || p.Block().Index < hdr.Block().Index {
+						hdr = p
+					}
+				}
+			}
+			if hdr == nil {
+				continue
+			}
+			// every in-loop incoming value must depend (data or control) on the phi itself, or be the constant false
+			all := true
+			for i, e := range hdr.Edges {
+				pred := hdr.Block().Preds[i]
+				if !hdr.Block().Dominates(pred) {
+					continue // initial value
+				}
+				if k, isK := strip(e).(*ssa.Const); isK && k.Value != nil && k.Value.String() == "false" {
+					continue
+				}
+				if !ctrlSlice(e).has(hdr) {
+					all = false
+					why = "the flag computed in one round does not depend on its value from earlier rounds: it reflects only the bit length visited last"
+				}
+			}
+			if all {
+				ok = true
+			}
+		}
+		if ok {
+			c.OK("C15-REUSE", key, c.Pos(f.Pos()), "finished is accumulated over all requested bit lengths (false is sticky)")
+		} else {
+			c.Bad("C15-REUSE", key, c.Pos(f.Pos()), why+" — configuring by counts can report success without creating the missing spaces")
 		}
 	}
 
